@@ -181,6 +181,12 @@ class LoopTop(Elaboratable):
         self.site_sig[s["sid"]] = res
 
     def s_if(self, m, s, din):
+        if s.get("sw"):  # the same alternatives as Switch/Case(/Default)
+            with m.Switch(self.inp(2)):
+                for i, alt in enumerate(s["alts"]):
+                    with m.Default() if (s.get("else") and i == len(s["alts"]) - 1) else m.Case(i):
+                        self.block(m, alt, din)
+            return
         for i, alt in enumerate(s["alts"]):
             if i == 0:
                 ctx = m.If(self.inp())
@@ -263,6 +269,8 @@ def build(spec: dict, want_edges: bool = True) -> dict:
 
     def sched(method_map, gr, cc, porder):
         rec.append((method_map, gr, cc, porder))
+        if spec.get("sched") == "rr":
+            return _schedulers.trivial_roundrobin_cc_scheduler(method_map, gr, cc, porder)
         return _schedulers.eager_deterministic_cc_scheduler(method_map, gr, cc, porder)
 
     with DependencyContext(dm):
@@ -559,6 +567,7 @@ DEFAULT_P = {
     "p_validate": 0.3,
     "p_nonexcl": 0.2,
     "p_conflict": 0.4,
+    "p_excl_conflict": 0.5,  # add_conflict between callees sitting in exclusive alternatives of ONE body
     "p_ready_loc": 0.7,
 }
 
@@ -591,6 +600,7 @@ class _G:
         self.nsid = 0
         self.top_order: list[str] = []  # user bodies in definition order
         self.reads_ok: dict[str, bool] = {}
+        self.excl_alts: list = []  # callees placed in different alternatives of one If/Switch of one body
         self.connect: set = set()  # Connect.read/.write: only called unconditionally from top-level transactions
         self.tused: dict[str, set] = {}
 
@@ -682,7 +692,8 @@ def _body_stmts(g: _G, used: set, in_method: bool, n_calls: int, depth: int, own
         if g.chance("p_if") and i + 1 < len(refs):
             k = g.rng.randint(2, min(3, len(refs) - i))
             alts = [[g.call_stmt(r, [], in_method)] for r in refs[i : i + k]]
-            stmts.append({"k": "if", "alts": alts, "else": g.rng.random() < 0.5})
+            stmts.append({"k": "if", "alts": alts, "else": g.rng.random() < 0.5, "sw": g.rng.random() < 0.3})
+            g.excl_alts.append(list(refs[i : i + k]))
             i += k
         else:
             stmts.append(g.call_stmt(refs[i], res_pool, in_method))
@@ -1120,6 +1131,74 @@ def _add_relations(g: _G, spec: dict):
         if s.get("ready") is None:
             s["ready"] = {"loc": rng.random() < 0.6, "reads": []}
         s["ready"]["reads"].append(a)
+    # conflicts between callees that one body reaches on mutually exclusive paths (If/Elif/Else, Switch/Case), either
+    # the callees themselves or methods they call (wrappers): accepted by manager.py:293-300, no edge is added
+    alias = {p["alias"]: p["target"] for p in spec.get("provides", [])}
+    user_m = {s["name"]: s for s in bodies if s["k"] == "method"}
+
+    def deeper(ref):
+        while ref in alias:
+            ref = alias[ref]
+        inner = [c["ref"] for c in _flat_calls(user_m[ref]["body"])] if ref in user_m else []
+        return rng.choice(inner) if inner and rng.random() < 0.5 else ref
+
+    # every call chain of every transaction, as the tuple of control-path labels of its call sites
+    # (mirrors MethodMap.info_by_call / call_paths_exclusive, manager.py:31-37, 101-127)
+    def stmts_calls(stmts, stack):
+        for s in stmts:
+            if s["k"] == "call":
+                yield s, stack
+            elif s["k"] == "if":
+                for j, alt in enumerate(s["alts"]):
+                    yield from stmts_calls(alt, stack + (("i", id(s), j),))
+            elif s["k"] == "cond":
+                for j, br in enumerate(s["branches"]):
+                    yield from stmts_calls(br["body"], stack + (("c", id(s), j),))
+
+    def chains_from(body_stmts, prefix, depth=0):
+        for cs, stack in stmts_calls(body_stmts, ()):
+            t = cs["ref"]
+            while t in alias:
+                t = alias[t]
+            path = prefix + (stack,)
+            yield t, path
+            if t in user_m and depth < 8:
+                yield from chains_from(user_m[t]["body"], path, depth + 1)
+
+    tchains = {s["name"]: list(chains_from(s["body"], ())) for s in bodies if s["k"] == "trans"}
+
+    def paths_exclusive(p, q):
+        for x, y in zip(p, q):
+            if x != y:
+                for lx, ly in zip(x, y):
+                    if lx != ly:
+                        return lx[0] == "i" and ly[0] == "i" and lx[1] == ly[1] and lx[2] != ly[2]
+                return False
+        return False
+
+    def exclusive_everywhere(ra, rb):
+        for ch in tchains.values():
+            pa = [p for t, p in ch if t == ra]
+            pb = [p for t, p in ch if t == rb]
+            if any(not paths_exclusive(x, y) for x in pa for y in pb):
+                return False
+        return True
+
+    for alts in g.excl_alts:
+        if len(alts) < 2 or not g.chance("p_excl_conflict"):
+            continue
+        a, b = rng.sample(alts, 2)
+        a, b = deeper(a), deeper(b)
+        ra, rb = a, b
+        while ra in alias:
+            ra = alias[ra]
+        while rb in alias:
+            rb = alias[rb]
+        if ra == rb or ra in reach.get(rb, ()) or rb in reach.get(ra, ()) or not exclusive_everywhere(ra, rb):
+            continue
+        if any(r["k"] == "before" and {r["a"], r["b"]} == {a, b} for r in spec["rels"]):
+            continue
+        spec["rels"].append({"k": "conflict", "a": a, "b": b, "prio": "U" if rng.random() < 0.8 else rng.choice("LR"), "excl": 1})
     # conflicts (with priorities when the order allows)
     allrefs = [s["name"] for s in bodies]
     for _ in range(3):
